@@ -12,3 +12,19 @@ func init() {
 		ruleGRDcrc(w, r)
 	})
 }
+
+func init() {
+	register("C02", "crash at any point recovers an explained state", func(w *World, r *Report) {
+		ruleORD1(w, r)
+		ruleORD2(w, r)
+		ruleORD3(w, r)
+		ruleORD7(w, r)
+		ruleCDC5(w, r)
+	})
+	register("C14", "no acknowledged write lost to snapshot/compaction/shutdown", func(w *World, r *Report) {
+		ruleORD4(w, r)
+		ruleORD5(w, r)
+		ruleORD6(w, r)
+		ruleORD8(w, r)
+	})
+}
